@@ -60,6 +60,24 @@ var cmpData = map[string]interface{}{"np": (*int)(nil), "nn": nil}
 func checkCmp(c cmpCase) string {
 	a, b := c.A.text(), c.B.text()
 	f := fmt.Sprintf("[(%s) < (%s), (%s) == (%s), (%s) > (%s), (%s) <= (%s), (%s) >= (%s), (%s) != (%s), (%s) === (%s), (%s) !== (%s)]", a, b, a, b, a, b, a, b, a, b, a, b, a, b, a, b)
+	// operands that are Go data values (Data "f64:<text>" / "i64:<text>") are bound under their name
+	cmpData := cmpData
+	for _, v := range []cmpVal{c.A, c.B} {
+		if strings.HasPrefix(v.Data, "f64:") || strings.HasPrefix(v.Data, "i64:") {
+			d := map[string]interface{}{}
+			for k, x := range cmpData {
+				d[k] = x
+			}
+			if strings.HasPrefix(v.Data, "f64:") {
+				fv, _ := strconv.ParseFloat(v.Data[4:], 64)
+				d[v.text()] = fv
+			} else {
+				iv, _ := strconv.ParseInt(v.Data[4:], 10, 64)
+				d[v.text()] = iv
+			}
+			cmpData = d
+		}
+	}
 	out := obs.EvalText(f, cmpData)
 	// the same eight comparisons with both operands held in locals: a bound value compares like the value
 	cmpLocalCount++
@@ -395,12 +413,32 @@ func init() {
 
 // TestC05Random: random decimals in random spellings, near neighbours, random byte strings.
 func TestC05Random(t *testing.T) {
-	run := h.Begin("C05", "random", "rapid: pairs of random decimals (C04 operand generator) each re-spelled at random (plain, exponent, shifted exponent, leading/trailing zeros, integers written out with leading zeros, arithmetic identity), pairs that differ only in the last of 34 digits or are equal, pairs of random byte strings (shared prefixes, invalid UTF-8), pairs of strings that look like timestamps / numbers / keywords (equal, extended by one character, unrelated); same oracle as the grid; non-trivial as in the grid; distinct by the pair of texts")
+	run := h.Begin("C05", "random", "rapid: pairs of random decimals (C04 operand generator) each re-spelled at random (plain, exponent, shifted exponent, leading/trailing zeros, integers written out with leading zeros, arithmetic identity), pairs that differ only in the last of 34 digits or are equal, pairs of Go float64 / int64 data values of every magnitude (whole ones beyond 2^53 and 2^63, fractions, extremes; also against the same number as a literal), pairs of random byte strings (shared prefixes, invalid UTF-8), pairs of strings that look like timestamps / numbers / keywords (equal, extended by one character, unrelated); same oracle as the grid; non-trivial as in the grid; distinct by the pair of texts")
 	defer run.End(t)
 	h.RapidSetup(h.N(8000, 3000000), "c05rand")
 	rapid.Check(t, func(rt *rapid.T) {
 		var c cmpCase
-		switch rapid.IntRange(0, 4).Draw(rt, "form") {
+		switch rapid.IntRange(0, 5).Draw(rt, "form") {
+		case 5: // Go float64 / int64 data values of every magnitude (whole ones beyond 2^53 and 2^63, fractions, tiny ones)
+			mk := func(name string) cmpVal {
+				if rapid.Bool().Draw(rt, name+"int") {
+					iv := rapid.SampledFrom([]int64{0, 1, -1, 9007199254740993, -9007199254740993, 9223372036854775807, -9223372036854775808, 1000000000000000000, 4611686018427387904}).Draw(rt, name+"iv")
+					if rapid.Bool().Draw(rt, name+"irand") {
+						iv = rapid.Int64().Draw(rt, name+"ir")
+					}
+					return cmpVal{Text: strconv.QuoteToASCII(name), Kind: "number", Num: new(big.Rat).SetInt64(iv).RatString(), Data: "i64:" + strconv.FormatInt(iv, 10)}
+				}
+				fv := rapid.SampledFrom([]float64{9.3e18, 9.9e18, -9.5e18, -9.25e18, 9223372036854775808, 1e19, 1.5e19, 1e15, 123456789012345680, 0.1, 2.5, 1e-7, 5e-324, 1.7976931348623157e308, 4503599627370497.5}).Draw(rt, name+"fv")
+				if rapid.Bool().Draw(rt, name+"frand") {
+					fv = rapid.Float64Range(-1e20, 1e20).Draw(rt, name+"fr")
+				}
+				txt := strconv.FormatFloat(fv, 'g', -1, 64)
+				return cmpVal{Text: strconv.QuoteToASCII(name), Kind: "number", Num: ref.ShortestRat(fv).RatString(), Data: "f64:" + txt}
+			}
+			c = cmpCase{mk("fa"), mk("fb")}
+			if rapid.IntRange(0, 3).Draw(rt, "vslit") == 0 { // against the same number written as a literal
+				c.B = numVal(ref.DecString(c.A.rat()), c.A.rat())
+			}
 		case 4: // strings that look like values of another kind compare as strings
 			a, _ := genLookalike(rt)
 			b, _ := genLookalike(rt)
